@@ -43,6 +43,20 @@ CLAIMED = {
         "technique": "flow-sensitive dependency comparison of guards and casts + guard dominance with scalar operands",
         "design_ref": "DESIGN.md §3 R-GUARDDEP/R-CONTRA/R-GUARD, §4 C12",
     },
+    "C13": {
+        "text": "Decides the structure of the validation ladder (HeContext::validate: early returns carry a non-Success "
+                "error, nothing but `return` follows an error store, every ErrorType variant is produced, unwraps are "
+                "dominated by their tests, parameters_set is matches!(error, Success)); that each mathematical "
+                "precondition reaches the ladder through a refusing guard (all-pairs coprimality refusal in RNSBase::new; "
+                "refusal propagation validate <- create_ntt_tables <- NTTTables::new <- try_minimal_primitive_root <- "
+                "try_primitive_root with the up-front 2N | q-1 refusal); identifier reproducibility (compute_parms_id reads "
+                "every hashed field, writers of hashed fields recompute on every path, nothing nondeterministic reachable).",
+        "note": _TB + "Not decided: that accepted parameters satisfy the mathematics as values, collision freedom of the "
+                "hash, primality of generated moduli, panic freedom of the whole constructor tree, equality of "
+                "precomputed constants with their definitions.",
+        "technique": "forward error-state dataflow + dominance of unwraps + refusal-propagation chain over resolved callees",
+        "design_ref": "DESIGN.md §3 R-LADDER, §4 C13",
+    },
     "C14": {
         "text": "Decides, for every serialization triple (trait impls and inherent full / selected-terms / polynomial "
                 "formats, containers and RNS-plaintext wrappers) and per scheme projection: the writer's and the reader's "
@@ -152,7 +166,7 @@ NOT_APPLICABLE = {
     "C01": _NYB, "C02": _NYB,
     "C07": "every clause compares a reported integer with exact big-integer arithmetic on runtime phase/noise "
            "values; no necessary condition is visible in the shape of the code (DESIGN.md §5)",
-    "C09": _NYB, "C10": _NYB, "C13": _NYB,
+    "C09": _NYB, "C10": _NYB,
     "C16": _NYB,
     "C19": "every clause is about where coefficients land as a function of runtime indices and counts; static "
            "shape rules do not bound them (DESIGN.md §5)",
